@@ -86,7 +86,9 @@ theorem repFields_mono {r r' : PyTy → PyVal → Json → Bool} (h : RLe r r') 
     refine ⟨⟨h'.1.1, ?_⟩, repFields_mono h kvs fs vs h'.2⟩
     have h2 := h'.1.2
     cases hl : Json.lookup kvs f.wireS with
-    | none => simpa [hl] using h2
+    | none =>
+      simp only [hl, Bool.and_eq_true] at h2 ⊢
+      exact ⟨h2.1, h _ _ _ h2.2⟩
     | some x =>
       simp only [hl, Bool.and_eq_true] at h2 ⊢
       exact ⟨h _ _ _ h2.1, h2.2⟩
